@@ -117,7 +117,8 @@ Fixpoint upd_root (n fuel : nat) (kd : comp -> comp -> bool) (r c : comp) (f : c
 Fixpoint reachb (n fuel : nat) (kd : comp -> comp -> bool) (c x : comp) : bool :=
   match fuel with
   | O => false
-  | S fu => (x =? c) || existsb (fun k => kd c k && reachb n fu kd k x) (seq 0 n)
+  | S fu => if x =? c then true
+            else existsb (fun k => if kd c k then reachb n fu kd k x else false) (seq 0 n)
   end.
 
 Definition members (n : nat) (kd : comp -> comp -> bool) (r : comp) : list comp :=
